@@ -785,6 +785,9 @@ func (n *normalizer) hoistArgs(top ast.Expr, info *types.Info, stack map[*types.
 					return walk(&x.X, false)
 				}
 			}
+			if x.Op == token.NOT {
+				return walk(&x.X, isTop)
+			}
 			return pureOperand(x)
 		case *ast.IndexExpr:
 			if !pureOperand(x.X) {
@@ -866,6 +869,10 @@ func (n *normalizer) stmt(s ast.Stmt, info *types.Info, stack map[*types.Func]bo
 	case *ast.ReturnStmt:
 		if len(x.Results) == 1 {
 			top = x.Results[0]
+		}
+	case *ast.IfStmt:
+		if x.Init == nil {
+			top = x.Cond
 		}
 	}
 	if top != nil {
